@@ -20,7 +20,7 @@ RULE = ('roundtrip units: cookie names from the token alphabet x plain values (t
         'Response/HTTPResponse objects and through a handler behind Ombott.__call__; tamper units: for each signed cookie every '
         'position x {16 substitution symbols, deletion, truncation} in quoted and unquoted transport form, plus swaps / length changes / '
         'other secret / other name. Non-trivial = a signed cookie, or a plain value needing quoting; distinct = distinct Cookie header.')
-REQUIRED = ['emitted_by_a_copied_response', 'plain_roundtrips', 'signed_roundtrips', 'quoted_values', 'tamper_reads', 'tamper_substitution', 'tamper_deletion',
+REQUIRED = ['set_after_earlier_cookie_operations', 'emitted_by_a_copied_response', 'plain_roundtrips', 'signed_roundtrips', 'quoted_values', 'tamper_reads', 'tamper_substitution', 'tamper_deletion',
             'tamper_truncation', 'tamper_swap', 'tamper_other_secret', 'tamper_other_name', 'unpickler_calls_observed', 'read_as_absent',
             'via_wsgi', 'unquoted_form', 'among_other_cookies']
 ASSUMPTIONS = ['cookie names are RFC 6265 tokens accepted by http.cookies; values are non-empty and at most 4096 characters',
@@ -39,16 +39,30 @@ OBJECTS = [1, 'text', None, True, 3.5, ('a', 1), ['l', ['nested', {'k': (1, 2)}]
 SENT = object()
 
 
-def set_and_emit(kind, name, value, secret=None, **opts):
+PRIORS = ['none', 'none', 'set_before', 'deleted_before', 'set_then_deleted', 'other_name_before']
+
+
+def apply_prior(resp, prior, name):
+    """What the same response saw before the cookie was set: the last set_cookie for a name is the one that counts."""
+    if prior in ('set_before', 'set_then_deleted'):
+        resp.set_cookie(name, 'earlier value; with "separators"', max_age=5)
+    if prior in ('deleted_before', 'set_then_deleted'):
+        resp.delete_cookie(name)
+    if prior == 'other_name_before':
+        resp.set_cookie('zz' + name if name[:1].isalnum() else 'zzother', 'other')
+
+
+def set_and_emit(kind, name, value, secret=None, prior='none', **opts):
     """-> the Set-Cookie header value as handed to the server (latin-1 form).
     kind 'Response' | 'HTTPResponse' | 'copied' (set on a Response, emitted by its copy: what redirect() does)"""
     from ombott.response import Response, HTTPResponse
     r = HTTPResponse('b') if kind == 'HTTPResponse' else Response()
+    apply_prior(r, prior, name)
     r.set_cookie(name, value, secret=secret, **opts)
     if kind == 'copied':
         r = r.copy(cls=HTTPResponse)
-    vals = [v for k, v in r.headerlist if k == 'Set-Cookie']
-    assert len(vals) == 1, vals
+    vals = [v for k, v in r.headerlist if k == 'Set-Cookie' and v.startswith(name + '=')]
+    assert len(vals) == 1, ('one Set-Cookie line per cookie name', vals)
     return vals[0]
 
 
@@ -88,8 +102,8 @@ class Mon:
         self.spy = PickleSpy.install_global()      # the name `pickle` inside ombott resolves to the patched module
         self.legit = set()
 
-    def sign(self, name, value, secret, kind='Response'):
-        sc = set_and_emit(kind, name, value, secret)
+    def sign(self, name, value, secret, kind='Response', prior='none'):
+        sc = set_and_emit(kind, name, value, secret, prior=prior)
         self.legit.add(pickle.dumps((name, value), -1))
         return sc
 
@@ -114,6 +128,7 @@ def roundtrip_unit(ctx, unit):
 
     @app.route('/set')
     def h_set():
+        apply_prior(app.response, cur['prior'], cur['name'])
         app.response.set_cookie(cur['name'], cur['value'], secret=cur['secret'], path='/', httponly=True)
         return 'set'
 
@@ -135,24 +150,27 @@ def roundtrip_unit(ctx, unit):
             if rng.random() < 0.4:
                 value = rng.choice(PLAIN)[:20] + rng.choice(PLAIN)[:20]
         mode = rng.choice(['object', 'object', 'wsgi'])
-        wit = {'unit': {'kind': 'rt1', 'name': name, 'signed': signed, 'secret': secret, 'value': repr(value), 'mode': mode}}
-        where = f'{"signed" if signed else "plain"} cookie {name}={value!r} ({mode})'
+        prior = rng.choice(PRIORS)
+        if prior != 'none':
+            ctx.count('set_after_earlier_cookie_operations')
+        wit = {'unit': {'kind': 'rt1', 'name': name, 'signed': signed, 'secret': secret, 'value': repr(value), 'mode': mode, 'prior': prior}}
+        where = f'{"signed" if signed else "plain"} cookie {name}={value!r} ({mode}, {prior})'
         try:
             if mode == 'object':
                 kind = rng.choice(['Response', 'HTTPResponse', 'copied'])
                 if kind == 'copied':
                     ctx.count('emitted_by_a_copied_response')
                 if signed:
-                    sc = mon.sign(name, value, secret, kind)
+                    sc = mon.sign(name, value, secret, kind, prior)
                 else:
-                    sc = set_and_emit(kind, name, value)
+                    sc = set_and_emit(kind, name, value, prior=prior)
             else:
-                cur.update(name=name, value=value, secret=secret)
+                cur.update(name=name, value=value, secret=secret, prior=prior)
                 if signed:
                     mon.legit.add(pickle.dumps((name, value), -1))
                 r = call_app(app, make_environ('GET', '/set'))
                 ctx.count('via_wsgi')
-                scs = r.header_all('Set-Cookie')
+                scs = [v for v in r.header_all('Set-Cookie') if v.startswith(name + '=')]
                 if r.code != 200 or len(scs) != 1 or r.problems:
                     ctx.violation('set-cookie-not-emitted', f'{where}: {r.status} {scs} {r.problems} {r.errors[-200:]}', wit)
                     continue
